@@ -1,5 +1,135 @@
 import Srsim.Model.Gcs.Eval
-/-! placeholder, replaced by the full theorem file once its proofs are in -/
+import Srsim.Proofs.NumRat
+import Srsim.Proofs.GcsScope
+/-!
+# C12 — gcs programs evaluate according to the language semantics
+
+Theorems about `Gcs.Eval` (model of `pkg/logic/gcs/eval`) at `α := ℚ`: the arithmetic and
+comparison laws of the two number kinds, error reporting, scope isolation, and the control-flow
+rules for `return` inside loops.  Tie: `Driver/C12.lean` (source text → Lean lexer → Lean parser →
+this evaluator, against the Go lexer/parser/evaluator).
+-/
 namespace Gcs.Eval
-theorem C12_wrap64_small : wrap64 7 = 7 ∧ wrap64 9223372036854775808 = -9223372036854775808 := by decide
+open Gcs.Parse Gcs.Lex
+
+abbrev V := Val Rat
+
+/-- **Integer arithmetic**: two integers give the integer result (64-bit wrap-around);
+integer division truncates toward zero and division by zero is an error, not a crash. -/
+theorem C12_int_arith (a b : Int) :
+    binop tPlus (.int a : V) (.int b) = .ok (.int (wrap64 (a + b))) ∧
+    binop tMinus (.int a : V) (.int b) = .ok (.int (wrap64 (a - b))) ∧
+    binop tAsterisk (.int a : V) (.int b) = .ok (.int (wrap64 (a * b))) ∧
+    (b ≠ 0 → binop tSlash (.int a : V) (.int b) = .ok (.int (wrap64 (Int.tdiv a b)))) ∧
+    binop tSlash (.int a : V) (.int 0) = .error "integer division by zero" := by
+  refine ⟨?_, ?_, ?_, ?_, ?_⟩ <;>
+    simp [binop, asF, tPlus, tMinus, tAsterisk, tSlash, tAnd, tOr]
+
+/-- **Promotion**: as soon as one operand is a float the operation is the floating one on the
+promoted operands, whichever side the float is on; float division never errors. -/
+theorem C12_promotion (a : Int) (x y : Rat) :
+    binop tPlus (.int a : V) (.flt x) = .ok (.flt ((a : Rat) + x)) ∧
+    binop tPlus (.flt x : V) (.int a) = .ok (.flt (x + (a : Rat))) ∧
+    binop tAsterisk (.flt x : V) (.flt y) = .ok (.flt (x * y)) ∧
+    binop tSlash (.int a : V) (.flt x) = .ok (.flt ((a : Rat) / x)) ∧
+    binop tMinus (.flt x : V) (.int a) = .ok (.flt (x - (a : Rat))) := by
+  refine ⟨?_, ?_, ?_, ?_, ?_⟩ <;>
+    simp [binop, asF, toF, tPlus, tMinus, tAsterisk, tSlash, tAnd, tOr]
+
+/-- **Comparisons and logic yield 0 or 1**, computed on the promoted values -/
+theorem C12_compare (l r : V) (hl : isNum l = true) (hr : isNum r = true) (op : Nat)
+    (hop : op ∈ [tAnd, tOr, tGt, tGe, tLt, tLe, tEq, tNe]) :
+    binop op l r = .ok (.int 0) ∨ binop op l r = .ok (.int 1) := by
+  simp only [List.mem_cons, List.mem_nil_iff, or_false] at hop
+  cases l <;> simp [isNum] at hl <;> cases r <;> simp [isNum] at hr <;>
+    rcases hop with rfl | rfl | rfl | rfl | rfl | rfl | rfl | rfl <;>
+    simp only [binop, asF, tPlus, tMinus, tAsterisk, tSlash, tAnd, tOr, tGt, tGe, tLt, tLe, tEq, tNe] <;>
+    simp only [Nat.reduceBEq, if_true, if_false, Bool.false_eq_true, Except.ok.injEq] <;>
+    exact b2v_cases _
+
+theorem C12_compare_values (a : Int) (x : Rat) :
+    binop tLt (.int a : V) (.flt x) = .ok (b2v (decide ((a : Rat) < x))) ∧
+    binop tEq (.int a : V) (.flt x) = .ok (b2v (decide ((a : Rat) = x))) ∧
+    unop tNot (.int a : V) = .ok (b2v (a == 0)) ∧
+    unop tMinus (.flt x : V) = .ok (.flt (0 - x)) := by
+  refine ⟨?_, ?_, ?_, ?_⟩ <;>
+    simp [binop, unop, asF, toF, tPlus, tMinus, tAsterisk, tSlash, tAnd, tOr, tGt, tGe, tLt, tLe, tEq, tNot]
+
+/-- **Ill-typed operands are errors** -/
+theorem C12_illtyped (op : Nat) (l r : V) (h : isNum l = false ∨ isNum r = false) :
+    binop op l r = .error "binary expression does not evaluate to a number" ∧
+    (isNum l = false → unop op l = .error "unary expression does not evaluate to a number") := by
+  constructor
+  · rcases h with h | h
+    · cases l <;> simp [isNum] at h <;> simp [binop, asF]
+    · cases r <;> simp [isNum] at h <;> cases l <;> simp [binop, asF]
+  · intro h; cases l <;> simp [isNum] at h <;> simp [unop]
+
+/-- **Unknown names are errors** -/
+theorem C12_unknown_name (mkF : Nat → Nat → Rat) (f : Nat) (s : St Rat) (env : Nat) (x : List Nat)
+    (h : lookup s env x = none) : evalExpr mkF (f + 1) s env (.ident x) = .err "variable does not exist" s := by
+  simp only [evalExpr, h]
+
+/-- **Wrong arity is an error** -/
+theorem C12_arity (mkF : Nat → Nat → Rat) (f : Nat) (s : St Rat) (env : Nat) (g : List Nat)
+    (params : List (List Nat)) (body : List Node) (args : List Expr) (fr : Nat)
+    (hg : lookup s env g = some (fr, .fn params body)) (hn : args.length ≠ params.length) :
+    evalExpr mkF (f + 2) s env (.call (.ident g) args) = .err "unmatched number of params" s := by
+  have h1 : evalExpr mkF (f + 1) s env (.ident g) = .ok (.fn params body) s := by
+    simp only [evalExpr, hg]
+  rw [evalExpr]
+  simp only [h1]
+  simp [hn]
+
+/-- parents are older than their children -/
+def FramesOK (s : St Rat) : Prop :=
+  ∀ (i : Nat) (fr : Frame Rat), s.frames[i]? = some fr → ∀ p, fr.parent = some p → p < i
+
+/-- **Scope isolation**: defining or changing a variable in a newer scope (a block that has been
+entered later) is invisible from an older scope. -/
+theorem C12_scope_isolation (s : St Rat) (h : FramesOK s) (env scope : Nat) (hlt : env < scope)
+    (x y : List Nat) (v : V) : lookup (setVar s scope x v) env y = lookup s env y := by
+  unfold lookup
+  rw [setVar_frames_size]
+  exact lookupIn_congr s.frames _ scope h
+    (fun i hi => setVar_frames_ne s scope x v i (Nat.ne_of_lt hi)) y _ env hlt
+
+/-- **Shadowing**: a variable defined in the current scope hides the outer one of the same name,
+and is what assignment finds first. -/
+theorem C12_shadowing (s : St Rat) (env : Nat) (x : List Nat) (v : V) (henv : env < s.frames.size) :
+    lookup (setVar s env x v) env x = some (env, v) := by
+  unfold lookup
+  rw [setVar_frames_size]
+  have hfr : s.frames[env]? = some s.frames[env] := Array.getElem?_eq_getElem henv
+  simp only [lookupIn]
+  unfold setVar
+  simp only [hfr, Array.set!_eq_setIfInBounds, Array.getElem?_setIfInBounds_self_of_lt henv]
+  rw [find_setVars]
+
+/-- **`return` leaves a loop**: when the body of a `while` returns, the loop returns that value
+(it is not swallowed and the loop is not re-entered). -/
+theorem C12_while_return (mkF : Nat → Nat → Rat) (f : Nat) (s s1 s2 : St Rat) (env : Nat) (c : Expr) (body : List Node)
+    (cv v : V) (hc : evalExpr mkF f s env c = .ok cv s1) (ht : truthy cv = true)
+    (hb : evalBlock mkF f s1 env body = .ok (.ret v) s2) :
+    whileLoop mkF (f + 1) s env c body = .ok (.ret v) s2 := by
+  rw [whileLoop]
+  simp only [hc, ht, hb]
+  simp
+
+/-- a false condition ends the loop with no value; `break` ends it too -/
+theorem C12_while_exit (mkF : Nat → Nat → Rat) (f : Nat) (s s1 s2 : St Rat) (env : Nat) (c : Expr) (body : List Node) (cv : V)
+    (hc : evalExpr mkF f s env c = .ok cv s1) :
+    (truthy cv = false → whileLoop mkF (f + 1) s env c body = .ok (.val .null) s1) ∧
+    (truthy cv = true → evalBlock mkF f s1 env body = .ok (.ctrl 1) s2 →
+      whileLoop mkF (f + 1) s env c body = .ok (.val .null) s2) := by
+  constructor
+  · intro ht
+    rw [whileLoop]
+    simp only [hc, ht]
+    simp
+  · intro ht hb
+    rw [whileLoop]
+    simp only [hc, ht, hb]
+    simp
+
 end Gcs.Eval
